@@ -8,7 +8,7 @@ OS = 'datacake_crdt::orswot::OrSWotSet::'
 NV = 'datacake_crdt::orswot::NodeVersions'
 
 
-def feeds_switch(body, local):
+def feeds_switch(body, local, _depth=0):
     cur = {local}
     for _ in range(6):
         for l in list(cur):
@@ -41,7 +41,22 @@ def feeds_switch(body, local):
                 return True
     if 0 in fw and body.local_ty(0) == 'bool':
         return True
+    # the answer compared with a constant verdict (`== Observation::Stale`): the comparison's result steers
+    for _b, t in body.calls():
+        n = cname(t) or ''
+        if n in ('core::cmp::PartialEq::eq', 'core::cmp::PartialEq::ne') and not t['dest']['p'] and _depth < 3 \
+                and any(op_local(a) in fw for a in t['args']) and t['dest']['l'] not in fw:
+            if feeds_switch(body, t['dest']['l'], _depth + 1):
+                return True
     return False
+
+
+def is_verdict_type(facts, ty):
+    """bool, or a field-less enum of the crate (a two-variant verdict such as Fresh / Stale)"""
+    if ty == 'bool':
+        return True
+    a = facts.adts.get(strip_generics(ty))
+    return bool(a is not None and a['kind'] == 'enum' and a['def'].startswith('datacake_crdt') and a['variants'] and all(not v['fields'] for v in a['variants']))
 
 
 def self_fields_accessed(facts, method_body):
@@ -70,7 +85,7 @@ def gate_predicates(facts, body):
         n = cname(t)
         if not n or not n.startswith(NV + '::'):
             continue
-        if body.local_ty(t['dest']['l']) != 'bool' or t['dest']['p']:
+        if t['dest']['p'] or not is_verdict_type(facts, body.local_ty(t['dest']['l'])):
             continue
         if not feeds_switch(body, t['dest']['l']):
             continue
